@@ -7,6 +7,7 @@ import NdnVerif.C15.LemmasFetch
 import NdnVerif.C15.LemmasBolt
 import NdnVerif.C15.LemmasMemStore
 import NdnVerif.C15.LemmasBoltStore
+import NdnVerif.C15.LemmasClient
 namespace Ndn.C15
 
 /-! ### Produce: segmentation -/
@@ -557,5 +558,70 @@ theorem stores_agree (ops : List SOp) (hw : ∀ op ∈ ops, op.WF) (name : Name)
     omega
   subst this
   exact ⟨v1, h1, h2⟩
+
+/-! ### several concurrent Consume calls on one client -/
+
+/-- Frame property of one engine event in the multi-stream client (any number of concurrent consumes):
+    the number of streams is unchanged; the stream the event belongs to (`evIdx e`) receives exactly the
+    arrival `stepArr` (a Data, a final timeout/error = `handleData .timeout`, or nothing: absorbed
+    retransmission, scheduling only); EVERY OTHER stream's fetch state is untouched except for `wnd2`
+    (the only field the scheduler `doCheck` writes) and no callback of another stream is made. -/
+theorem concurrent_step_frame (serve : Name → Bool → Option Pkt) (c : Client) (e : Ev) (h : evIdx e < c.cons.length) :
+    (c.step serve e).1.cons.length = c.cons.length ∧
+    ∀ o, ((((c.step serve e).1.getCons o).f).eqv
+            (if o = evIdx e then (applyArr (c.getCons o).f (stepArr serve c e)).1 else (c.getCons o).f)) ∧
+         cbsOf o (c.step serve e).2.cbs = (if o = evIdx e then (applyArr (c.getCons o).f (stepArr serve c e)).2 else []) :=
+  step_eff serve c e h
+
+/-- Multi-stream refines single-stream.  For EVERY run of the client (any consume names, any event sequence
+    whose stream indices exist — also runs flagged `impossible` or `spin`), and every stream `o`: the callback
+    records of `o` are exactly those of the single-stream machine `runFetch {}` fed with `o`'s arrivals
+    (`runArrivals`: the Data served for its segment events in order, plus `.timeout` where a retry budget is
+    exhausted or the metadata step fails), and `o`'s final fetch state is that machine's final state up to
+    `wnd2`.  Other streams and the scheduler never influence what stream `o` delivers. -/
+theorem concurrent_fetch_refines_single (serve : Name → Bool → Option Pkt) (delivers : Nat → Key → Nat → Bool)
+    (names : List Name) (evs : List Ev) (o : Nat) (hidx : ∀ e ∈ evs, evIdx e < names.length) :
+    (((Client.run serve delivers names evs).1.getCons o).f).eqv (runFetch {} (runArrivals serve delivers names evs o)).1 ∧
+    outsCbs o (Client.run serve delivers names evs).2 = (runFetch {} (runArrivals serve delivers names evs o)).2 :=
+  run_refines serve delivers names evs o hidx
+
+/-- `fetch_any_order` lifted to concurrent consumes: if the arrivals of stream `o` in a run are the Data of
+    all segments of its object, each once, in ANY order, then — whatever the other streams do, fail or
+    starve — `o`'s callbacks deliver the exact content with exactly one completion and no error.
+    PARTIAL: the hypothesis is stated on the projected arrival list; deriving it from "every segment is
+    stored and every Interest of `o` gets through within the retry budget" (i.e. that the event sequence
+    of a non-`impossible`, non-`spin` run contains exactly one Data per segment of `o`) needs liveness of
+    the scheduler (`doCheck`/`pick` progress, LemmasPick.lean) and is not proved here. -/
+theorem concurrent_fetch_any_order_partial (serve : Name → Bool → Option Pkt) (delivers : Nat → Key → Nat → Bool)
+    (names : List Name) (evs : List Ev) (o : Nat) (hidx : ∀ e ∈ evs, evIdx e < names.length)
+    (base : Name) (segs : List Bytes) (order : List Nat)
+    (hne : segs ≠ []) (hseg : ∀ s ∈ segs, s ≠ []) (hmax : segs.length ≤ maxObjectSeg)
+    (hperm : order.Perm (List.range segs.length))
+    (harr : runArrivals serve delivers names evs o = order.map fun i => Arrival.data (segPkt base segs i)) :
+    ((outsCbs o (Client.run serve delivers names evs).2).map (·.chunk)).flatten = segs.flatten ∧
+    ((Client.run serve delivers names evs).1.getCons o).f.complete = true ∧
+    ((Client.run serve delivers names evs).1.getCons o).f.err = false ∧
+    ((outsCbs o (Client.run serve delivers names evs).2).filter (·.complete)).length = 1 := by
+  obtain ⟨h1, h2⟩ := concurrent_fetch_refines_single serve delivers names evs o hidx
+  have hf := fetch_any_order base segs order hne hseg hmax hperm
+  rw [harr] at h1 h2
+  obtain ⟨f1, f2, f3, f4, _, _⟩ := hf
+  have hfl := Fetch.eqv_fields h1
+  exact ⟨by rw [h2]; exact f1, by rw [hfl.1]; exact f2, by rw [hfl.2.1]; exact f3, by rw [h2]; exact f4⟩
+
+/-- non-vacuity: two concurrent consumes on one client; stream 1's object is not stored (its Interest
+    times out 1+3 times and it fails), stream 0 gets its two segments around those events -/
+def exA : Name := [⟨8, [1]⟩, verComp 1]
+def exB : Name := [⟨8, [2]⟩, verComp 1]
+def exServe (n : Name) (_ : Bool) : Option Pkt :=
+  if n = exA ++ [segComp 0] then some (segPkt exA [[7], [8]] 0)
+  else if n = exA ++ [segComp 1] then some (segPkt exA [[7], [8]] 1) else none
+def exEvs : List Ev :=
+  [.data 0 (some 0), .timeout 1 (some 0), .timeout 1 (some 0), .timeout 1 (some 0), .data 0 (some 1), .timeout 1 (some 0)]
+
+example : (∀ e ∈ exEvs, evIdx e < [exA, exB].length) ∧
+    (Client.run exServe (fun _ _ _ => true) [exA, exB] exEvs).1.impossible = false ∧
+    outsCbs 0 (Client.run exServe (fun _ _ _ => true) [exA, exB] exEvs).2 = [⟨[7], false, false⟩, ⟨[8], true, false⟩] ∧
+    outsCbs 1 (Client.run exServe (fun _ _ _ => true) [exA, exB] exEvs).2 = [⟨[], true, true⟩] := by decide
 
 end Ndn.C15
